@@ -2,6 +2,7 @@ package gen
 
 import (
 	"fmt"
+	"math"
 	"reflect"
 	"sort"
 	"strings"
@@ -18,6 +19,8 @@ import (
 
 type sink interface {
 	leaf(w *walker, kind string, data string)
+	// num is the allocation-free path for numeric leaves
+	num(w *walker, kind string, a, b uint64)
 }
 
 type walker struct {
@@ -71,7 +74,7 @@ func (w *walker) walk(v reflect.Value) {
 		}
 		k := seenKey{v.UnsafePointer(), v.Type()}
 		if idx, ok := w.seen[k]; ok {
-			w.s.leaf(w, "ptr", fmt.Sprintf("seen#%d", idx))
+			w.s.num(w, "ptr-seen", uint64(idx), 0)
 			return
 		}
 		w.seen[k] = len(w.seen)
@@ -84,8 +87,10 @@ func (w *walker) walk(v reflect.Value) {
 			return
 		}
 		t := v.Type()
-		for i := 0; i < t.NumField(); i++ {
-			w.push("." + t.Field(i).Name)
+		for i, n := 0, t.NumField(); i < n; i++ {
+			if w.paths {
+				w.push("." + t.Field(i).Name)
+			}
 			w.walk(v.Field(i))
 			w.pop()
 		}
@@ -97,7 +102,7 @@ func (w *walker) walk(v reflect.Value) {
 			return
 		}
 		n, c := v.Len(), v.Cap()
-		w.s.leaf(w, "slice", fmt.Sprintf("len=%d cap=%d", n, c))
+		w.s.num(w, "slice", uint64(n), uint64(c))
 		full := v
 		if w.spare && c > n {
 			full = v.Slice3(0, c, c)
@@ -117,17 +122,21 @@ func (w *walker) walk(v reflect.Value) {
 			return
 		}
 		for i := 0; i < c; i++ {
-			if i < n {
-				w.push(fmt.Sprintf("[%d]", i))
-			} else {
-				w.push(fmt.Sprintf("[spare%d]", i))
+			if w.paths {
+				if i < n {
+					w.push(fmt.Sprintf("[%d]", i))
+				} else {
+					w.push(fmt.Sprintf("[spare%d]", i))
+				}
 			}
 			w.walk(full.Index(i))
 			w.pop()
 		}
 	case reflect.Array:
 		for i := 0; i < v.Len(); i++ {
-			w.push(fmt.Sprintf("[%d]", i))
+			if w.paths {
+				w.push(fmt.Sprintf("[%d]", i))
+			}
 			w.walk(v.Index(i))
 			w.pop()
 		}
@@ -145,13 +154,17 @@ func (w *walker) walk(v reflect.Value) {
 			w.pop()
 		}
 	case reflect.Bool:
-		w.s.leaf(w, "bool", fmt.Sprint(v.Bool()))
+		b := uint64(0)
+		if v.Bool() {
+			b = 1
+		}
+		w.s.num(w, "bool", b, 0)
 	case reflect.Int, reflect.Int8, reflect.Int16, reflect.Int32, reflect.Int64:
-		w.s.leaf(w, "int", fmt.Sprint(v.Int()))
+		w.s.num(w, "int", uint64(v.Int()), 0)
 	case reflect.Uint, reflect.Uint8, reflect.Uint16, reflect.Uint32, reflect.Uint64, reflect.Uintptr:
-		w.s.leaf(w, "uint", fmt.Sprint(v.Uint()))
+		w.s.num(w, "uint", v.Uint(), 0)
 	case reflect.Float32, reflect.Float64:
-		w.s.leaf(w, "float", fmt.Sprintf("%x", v.Float()))
+		w.s.num(w, "float", math.Float64bits(v.Float()), 0)
 	case reflect.Complex64, reflect.Complex128:
 		w.s.leaf(w, "complex", fmt.Sprint(v.Complex()))
 	case reflect.Func, reflect.Chan, reflect.UnsafePointer:
@@ -175,7 +188,8 @@ func (w *walker) walkTime(v reflect.Value) {
 		loc := (*time.Location)(lp.UnsafePointer())
 		locName = loc.String()
 	}
-	w.s.leaf(w, "time", fmt.Sprintf("wall=%d ext=%d loc=%s", wall, ext, locName))
+	w.s.num(w, "time", wall, uint64(ext))
+	w.s.leaf(w, "time-loc", locName)
 }
 
 // ---- hash sink
@@ -193,6 +207,21 @@ func (s *hashSink) add(b string) {
 }
 
 //go:norace
+func (s *hashSink) num(w *walker, kind string, a, b uint64) {
+	s.add(kind)
+	h := s.h
+	for i := 0; i < 8; i++ {
+		h ^= (a >> (8 * uint(i))) & 0xff
+		h *= 1099511628211
+	}
+	for i := 0; i < 8; i++ {
+		h ^= (b >> (8 * uint(i))) & 0xff
+		h *= 1099511628211
+	}
+	s.h = h
+}
+
+//go:norace
 func (s *hashSink) leaf(w *walker, kind string, data string) {
 	s.add(kind)
 	s.add("\x00")
@@ -203,6 +232,22 @@ func (s *hashSink) leaf(w *walker, kind string, data string) {
 // ---- dump sink
 
 type dumpSink struct{ lines []string }
+
+//go:norace
+func (s *dumpSink) num(w *walker, kind string, a, b uint64) {
+	switch kind {
+	case "slice":
+		s.leaf(w, kind, fmt.Sprintf("len=%d cap=%d", a, b))
+	case "int":
+		s.leaf(w, kind, fmt.Sprint(int64(a)))
+	case "time":
+		s.leaf(w, kind, fmt.Sprintf("wall=%d ext=%d", a, int64(b)))
+	case "float":
+		s.leaf(w, kind, fmt.Sprint(math.Float64frombits(a)))
+	default:
+		s.leaf(w, kind, fmt.Sprint(a))
+	}
+}
 
 //go:norace
 func (s *dumpSink) leaf(w *walker, kind string, data string) {
@@ -261,6 +306,9 @@ func Diff(a, b []string) string {
 // violation class of a write (so that the same write at another index of a
 // list is the same class).
 func PathClass(diff string) string {
+	if strings.HasPrefix(diff, "(restored") {
+		return "write-then-restore"
+	}
 	p := diff
 	if i := strings.Index(p, " "); i >= 0 {
 		p = p[:i]
@@ -281,5 +329,10 @@ func PathClass(diff string) string {
 			}
 		}
 	}
-	return sb.String()
+	out := sb.String()
+	// the last field on the path names what was written; the way to it does not matter
+	if i := strings.LastIndex(out, "."); i >= 0 {
+		out = out[i:]
+	}
+	return out
 }
